@@ -222,6 +222,13 @@ package getty
 //@   ensures no-session-is-an-error: s == nil && called("selectSession#1") && callres("selectSession#1", 0) == nil ==> result1 != nil && result0 == nil
 //@   nopanic
 
+// an asynchronous request gets the same waiter as a synchronous one, in a goroutine: it gives the
+// request up after the timeout and removes its future (syncCallback/timeout-cleans); without it an
+// unanswered asynchronous request would stay in the table for ever
+//@ func (*GettyRemotingClient).asyncCallback
+//@   prop C14
+//@   ensures waiter-started: result1 == nil && spawned("syncCallback")
+
 //@ func (*GettyRemoting).sendAsync
 //@   prop C14 C15
 //@   ensures written-once-on-an-open-session: session != nil && !ufb("session.closed", session) ==> ghost.wp_calls == 1
